@@ -96,6 +96,7 @@ def main():
             sh(['git', '-C', '/repo', 'worktree', 'remove', '--force', wt])
             h = hashlib.sha1(wt.encode()).hexdigest()[:10]
             shutil.rmtree(os.path.join(VERIF, 'out', 'build', h), ignore_errors=True)
+            shutil.rmtree(os.path.join(VERIF, 'out', 'alt-' + h), ignore_errors=True)
             shutil.rmtree(wt, ignore_errors=True)
     print('RESULT ' + json.dumps(result))
     return 0
